@@ -124,6 +124,15 @@ func (f *FileReaderImpl) collectFromDirectory(dirPath string, recursive bool, in
 			return filepath.SkipDir
 		}
 
+		// A symbolic link is reported with the information of the link itself.
+		// One whose target does not exist names no file to analyze: skip it,
+		// like any other entry that cannot be read
+		if info.Mode()&os.ModeSymlink != 0 {
+			if _, statErr := os.Stat(path); statErr != nil {
+				return nil
+			}
+		}
+
 		// Check if it's a Python file
 		if !info.IsDir() && f.IsValidPythonFile(path) {
 			// Patterns select files by their location inside the analyzed directory,
